@@ -37,11 +37,22 @@ CHECK_DEADLOCK FALSE
 
 EMIT_CFG = CONSTS + '''  ParseLen = %(parselen)d
   SubLen = %(sublen)d
+  IPLen = %(iplen)d
   PartLen = %(partlen)d
 INIT Init
 NEXT Next
 CHECK_DEADLOCK FALSE
 '''
+
+STORE_CFG = CONSTS + '''  Bases <- MCBases
+  StoreParts <- MCStoreParts
+  MaxOps = %(maxops)d
+  EmitLen = %(emitlen)d
+SPECIFICATION SSpec
+%(props)s
+CHECK_DEADLOCK FALSE
+'''
+STORE_PROPS = ["C11_HandlesDenote", "C11_StoreCanonical", "C11_StoreReplaceAgrees", "C11_Immutable"]
 
 PROPS = ["C11_Idempotent", "C11_PartsValid", "C11_AccessorsAgree", "C11_BuildReplaceParseAgree",
          "C11_SplitRule", "C11_XMLRoundTrip"]
@@ -62,6 +73,16 @@ def design_check(ctx, quick):
                 workers=1, timeout=300, name="MCJIDDev")
     if "Inv" not in r.violated:
         raise verif.Undecided("design self-test: deviation TrailingDotOnce does not violate the invariants:\n" + r.out[-1500:])
+    # value layer (JIDStore.tla): packed representation with shared buffers; every address handed out is immutable
+    st = ctx.model_check("MCJIDStore", STORE_CFG % dict(maxops=2 if ctx.replay else (3 if quick else 4), emitlen=0,
+                                                         props="INVARIANT SInv\nPROPERTY C11_Immutable"),
+                         STORE_PROPS, workers=4, timeout=1200)
+    for dev in ("AppendInPlace", "ReplaceInPlace"):
+        r = ctx.tlc("MCJIDStore", (STORE_CFG % dict(maxops=2, emitlen=0, props="PROPERTY C11_Immutable")).replace("Dev = {}", 'Dev = {"%s"}' % dev),
+                    workers=1, timeout=300, name="MCJIDStoreDev" + dev)
+        if "C11_Immutable" not in r.violated:
+            raise verif.Undecided("design self-test: deviation %s does not violate C11_Immutable:\n%s" % (dev, r.out[-1500:]))
+    mc.store = st
     return mc
 
 
@@ -191,15 +212,18 @@ def run(ctx):
     quick = ctx.tier == "quick"
     mcbg = jc.Background(lambda: design_check(ctx, quick))
     try:
-        files, er = jc.emit(ctx, "EmitJID", EMIT_CFG % dict(parselen=4, sublen=0 if quick or ctx.replay else 5, partlen=2), FILES,
+        files, er = jc.emit(ctx, "EmitJID", EMIT_CFG % dict(parselen=4, sublen=0 if quick or ctx.replay else 5, iplen=3 if ctx.replay else (4 if quick else 5), partlen=2), FILES,
                             timeout=1200)
-        nvec = sum(sum(1 for _ in open(files[f])) for f in FILES[:4])
+        pf, pr = jc.emit(ctx, "MCJIDStore", STORE_CFG % dict(maxops=0, emitlen=2 if ctx.replay else (3 if quick else 4), props=""),
+                         ["progs.ndjson"], timeout=1200)
+        files.update(pf)
+        nvec = sum(sum(1 for _ in open(files[f])) for f in FILES[:4] + ["progs.ndjson"])
         ctx.log("TLC emitted %d vectors in %.1fs" % (nvec, er.wall))
         trace = ctx.path("trace.ndjson")
         if ctx.replay:
             summ = drive(ctx, files, trace, {}, replay_case=json.load(open(ctx.replay))["case"]["case"])
         else:
-            summ = drive(ctx, files, trace, {"JID_CORPUS": "30000" if quick else "1000000",
+            summ = drive(ctx, files, trace, {"JID_PROGS": files["progs.ndjson"], "JID_CORPUS": "30000" if quick else "1000000",
                                              "JID_TRACE_EVERY": "25" if quick else "40"})
         x = summ["extra"]
         ctx.log("driver: %d cases on the real package (%s), %d addresses returned and checked against the laws, %d findings; %d traces / %d events recorded" % (
@@ -221,7 +245,8 @@ def run(ctx):
     finally:
         mc = mcbg.result()
     ctx.write_evidence("model_checking", {
-        "states": mc.distinct, "transitions": mc.generated,
+        "states": mc.distinct + mc.store.distinct, "transitions": mc.generated + mc.store.generated,
+        "design_check_runs": {"MCJID": mc.distinct, "MCJIDStore": mc.store.distinct},
         "traces_validated_against_impl": summ["traces"], "trace_events": summ["events"], "trace_states": tr.distinct,
         "vectors": nvec, "evaluations": summ["evaluations"], "cases_by_kind": x.get("cases_by_kind"),
         "addresses_returned_and_checked": x.get("addresses_returned"),
@@ -229,6 +254,7 @@ def run(ctx):
         "rejected_traces": len(rejected), "binding_selftest_mutants_rejected": nself,
         "valid_addresses_rejected": x.get("ok_class_rejected"), "valid_addresses": x.get("ok_class"),
         "exhaustive": "every string of length <= 4 over 19 representative symbols, <= %d over 10 of them (+ runs of 1022/1023/1024 letters in each part); all part triples with parts <= 2 over {a,A,@,/,.} and <= 1 over all symbols; replacements of each part of 6 valid bases by every part of length <= 2; Equal on all pairs of 22 valid strings over {a,@,/}" % (4 if quick else 5),
+        "value_layer": "JIDStore.tla: programs of <= %d operations (Bare, Domain, Copy, WithLocal / WithDomain / WithResource with 4 parts, on ANY address handed out so far) from 3 bases over the packed representation with shared buffers; every program emitted by TLC and run on the real package, all addresses handed out re-read after every operation (C11_Immutable), TLC validates the observations; deviations AppendInPlace / ReplaceInPlace shown to violate C11_Immutable" % (3 if quick else 4),
         "design_check": "MCJID: API machine (Parse, New, WithLocal/WithDomain/WithResource, Bare, Domain), strict and lenient treatment of unmodelled parts; closure of the reference functions; deviation TrailingDotOnce shown to violate the invariants",
         "rule": "a case is one vector or one corpus string/triple (distinct by content); every address returned without error is checked against all six laws; a trace is the observation record of one case",
         "samples": summ["samples"][:2] + summ["mismatches"][:1],
